@@ -37,6 +37,18 @@ CHECKS['C06'] = ('fault_enumeration', 'exhaustive injection of 1-2 cancel() call
     'object at the right time, a cancel of a not-started task must prevent its code, a cancel of a suspended task must be raised inside it within the same time step, and parent/siblings must be undisturbed.',
     'Trusts the lifecycle oracle in vk/checks/c06.py; one victim, <= 2 awaiters, <= 2 cancels.',
     'DESIGN.md section 3 C06')
+CHECKS['C04'] = ('fault_enumeration', 'exhaustive fault injection (cancel of owner/children at every activation boundary, swept close/until-interrupt of the owner) into enumerated scope trees on the real kernel; descendant monitor over the whole log',
+    'All scope trees of the grammar (15 child shapes incl. nested scopes, late spawners, children spawning in their finally, volatile tickers; 6 bodies; Scope/until blocks; outsiders spawning '
+    'into the block) are executed fault-free and with a cancel at every activation boundary of the owner or any child and with the owner closed/interrupted at every queue position; '
+    'after the block-left record no record of any descendant may follow, every accepted child must be done, normal exits must have completed every non-volatile child, volatile children are closed last, late spawns are refused.',
+    'Trusts the log bracketing and the static descendant computation; <= 3 children per scope, nesting 2.',
+    'DESIGN.md section 3 C04')
+CHECKS['C05'] = ('fault_enumeration', 'same exhaustive scope-tree exploration; outcome of every block compared with the outcome computed from the observed child failures',
+    'On every execution of the C04 scope-tree space, each block must end in exactly the one admissible way computed from the observed list of direct-child failures and the body exception '
+    '(nothing / the very body exception / Concurrent with exactly those objects by identity, order and multiplicity / the first privileged object), never contain cancellations or signals, '
+    'end at the virtual time of the first failure, and abort all remaining children (containment monitor).',
+    'Trusts the outcome table in vk/checks/c05.py; GeneratorExit objects are compared by type.',
+    'DESIGN.md section 3 C05')
 PENDING = {}
 
 def main():
